@@ -14,7 +14,8 @@ RULE = ("a combine task over every non-empty ordered selection (<=3) of dependen
         "versions); a sibling task with the same dependencies shows what dependents receive in COND_DEPS. states = distinct (scenario, "
         "history prefix) project states; transitions = runs executed; oracle: entry named after the dependency resolves to exactly the "
         "directory the dependency was spawned with / had selected, none for empty outputs or groups, updated after re-runs, "
-        "non-link entries reported as an error and left untouched")
+        "non-link entries reported as an error and left untouched. Extra kinds/layouts: a dependency whose output holds only hidden "
+        "entries, cond-out being a symbolic link to a directory at another depth, a project path containing glob metacharacters")
 ASSUMPTIONS = [
     "an experiment's output directory is never empty (Conductor writes stdout.log/stderr.log into it)",
     "a link whose target directory was removed by hand is still 'a link Conductor made' and must be updated, not crashed on",
@@ -39,7 +40,7 @@ def project(comb_pkg, deps, dep_pkgs):
         by_pkg.setdefault(pkg, []).append(text)
 
     for k, pk in zip(deps, dep_pkgs):
-        if k in ("dc", "dq"):
+        if k in ("dc", "dq", "dh"):
             add(pk, 'run_command(name="%s", run="./%s.sh")\n' % (k, k))
         elif k == "de":
             add(pk, 'run_experiment(name="de", run="./de.sh")\n')
@@ -77,6 +78,16 @@ def items(tier):
                 for pre in pres:
                     for cached in ((False, True) if "de" in sel else (False,)):
                         out.append({"sel": list(sel), "comb_pkg": comb_pkg, "dep_pkgs": list(dep_pkgs), "pre": pre, "cached": cached})
+    # a dependency whose output holds only hidden entries (.done, .cache/): not empty, so it gets an entry
+    for sel, pks in ((["dh"], [""]), (["dh"], ["p/q"]), (["dh", "de"], ["p", ""]), (["dc", "dh"], ["", "p"]), (["dk", "dh", "dq"], ["p", "p", "p"])):
+        for comb_pkg in ("", "p"):
+            for cached in ((False, True) if "de" in sel else (False,)):
+                out.append({"sel": sel, "comb_pkg": comb_pkg, "dep_pkgs": pks, "pre": "absent", "cached": cached})
+    # unusual locations: cond-out is a symbolic link to a directory at another depth; the project path contains glob metacharacters
+    for layout in ("symlink-out", "glob-path"):
+        for sel, pks in ((["dc"], [""]), (["de"], ["p/q"]), (["de", "dc"], ["p", ""]), (["dk", "de"], ["", "p/q"]), (["dc", "dh", "de"], ["p", "", "p/q"])):
+            for comb_pkg in PKGS:
+                out.append({"sel": sel, "comb_pkg": comb_pkg, "dep_pkgs": pks, "pre": "absent", "cached": False, "layout": layout})
     # crash points of a link-updating re-run
     for sel, pk in ((["de"], [""]), (["de", "dc"], ["p", ""]), (["dk", "de"], ["", "p/q"]), (["de", "dg", "dc"], ["p", "p", "p"])):
         for comb_pkg in ("", "p"):
@@ -174,8 +185,14 @@ def run_item(item, tier):
         pre_tree[entry] = "user data\n"
     elif item["pre"] == "dir":
         pre_tree[os.path.join(entry, "inner.txt")] = "user data\n"
-    root = driver.fresh_project(files, name="c18", pre_tree=pre_tree, index_rows=rows)
-    beh = {"//%s:dq" % dict(zip(sel, dep_pkgs)).get("dq", ""): {"quiet": True}}
+    root = driver.fresh_project(files, name="c18[v2]" if item.get("layout") == "glob-path" else "c18", pre_tree=pre_tree, index_rows=rows)
+    if item.get("layout") == "symlink-out":
+        real_out = os.path.join(driver.scratch_root(), "c18-real", "deeper", "down", "out")
+        shutil.rmtree(os.path.join(driver.scratch_root(), "c18-real"), ignore_errors=True)
+        os.makedirs(real_out)
+        os.symlink(real_out, os.path.join(root, "cond-out"))
+    beh = {"//%s:dq" % dict(zip(sel, dep_pkgs)).get("dq", ""): {"quiet": True},
+           "//%s:dh" % dict(zip(sel, dep_pkgs)).get("dh", ""): {"quiet": True, "files": {".done": b"x", ".cache/blob": b"y"}}}
     target = "//%s:top" % comb_pkg
     t = 1_700_000_000
     conflict_expected = item["pre"] in ("file", "dir") and first not in ("dq", "dg")
